@@ -289,6 +289,12 @@ func convertSlice[S, D signal.SignalTypes](conv func(*signal.Buffer[S], *signal.
 // shuffledBlocks converts xs in random order through many small buffers (2..9 samples, 1..3 channels), so that
 // a sample's result cannot depend on what else is in the buffer or where it sits; emits unordered points.
 func shuffledBlocks[S, D signal.SignalTypes](rng *rand.Rand, conv func(*signal.Buffer[S], *signal.Buffer[D]) int, xs []S, max int, emit func(x S, y D)) {
+	shuffledBlocksRT(rng, conv, nil, xs, max, emit, nil)
+}
+
+// shuffledBlocksRT: as shuffledBlocks; when back is given, the large block is also converted back as ONE block and
+// the distinct (input, output, round trip) triples are reported.
+func shuffledBlocksRT[S, D signal.SignalTypes](rng *rand.Rand, conv func(*signal.Buffer[S], *signal.Buffer[D]) int, back func(*signal.Buffer[D], *signal.Buffer[S]) int, xs []S, max int, emit func(x S, y D), emitRT func(x S, y D, z S)) {
 	idx := rng.Perm(len(xs))
 	if len(idx) > max {
 		idx = idx[:max]
@@ -323,11 +329,18 @@ func shuffledBlocks[S, D signal.SignalTypes](rng *rand.Rand, conv func(*signal.B
 			y D
 		}
 		seen := map[pair]struct{}{}
+		var zs []S
+		if back != nil {
+			zs = convertSlice(back, ys)
+		}
 		for i := n - 1; i >= 0 && len(seen) < 3000; i-- {
 			p := pair{in[i], ys[i]}
 			if _, ok := seen[p]; !ok {
 				seen[p] = struct{}{}
 				emit(in[i], ys[i])
+				if zs != nil {
+					emitRT(in[i], ys[i], zs[i])
+				}
 			}
 		}
 	}
@@ -429,7 +442,7 @@ func quantSweep[S, D constraints.Integer](w *numWriter, rng *rand.Rand, fn, sty,
 	w.start(&NEvent{Fam: "quant", Fn: fn, STy: sty, DTy: dty, Ss: b2i(isSigned[S]()), Sd: sd, Ds: b2i(isSigned[D]()), Dd: dd})
 	if sd == 16 || (exhaustive && sd == 32) {
 		quantExhaustive(w, conv, back)
-		quantShuffled(w, rng, fn, sty, dty, conv, intValues[S](rng, nrand))
+		quantShuffled(w, rng, fn, sty, dty, conv, back, intValues[S](rng, nrand))
 		return
 	}
 	xs := intValues[S](rng, nrand)
@@ -443,12 +456,16 @@ func quantSweep[S, D constraints.Integer](w *numWriter, rng *rand.Rand, fn, sty,
 			w.emit(&NEvent{Op: "RT", X: numOfInt(xs[i]), Y: numOfInt(ys[i]), Z: numOfInt(zs[i])})
 		}
 	}
-	quantShuffled(w, rng, fn, sty, dty, conv, xs)
+	quantShuffled(w, rng, fn, sty, dty, conv, back, xs)
 }
 
-func quantShuffled[S, D constraints.Integer](w *numWriter, rng *rand.Rand, fn, sty, dty string, conv func(*signal.Buffer[S], *signal.Buffer[D]) int, xs []S) {
+func quantShuffled[S, D constraints.Integer](w *numWriter, rng *rand.Rand, fn, sty, dty string, conv func(*signal.Buffer[S], *signal.Buffer[D]) int, back func(*signal.Buffer[D], *signal.Buffer[S]) int, xs []S) {
 	w.start(&NEvent{Fam: "quant", Fn: fn, STy: sty, DTy: dty, Ss: b2i(isSigned[S]()), Sd: bitsOf[S](), Ds: b2i(isSigned[D]()), Dd: bitsOf[D](), Uo: 1})
-	shuffledBlocks(rng, conv, xs, 300, func(x S, y D) { w.emit(&NEvent{Op: "P", X: numOfInt(x), Y: numOfInt(y)}) })
+	if bitsOf[D]() <= bitsOf[S]() {
+		back = nil // the round trip is claimed for widening only
+	}
+	shuffledBlocksRT(rng, conv, back, xs, 300, func(x S, y D) { w.emit(&NEvent{Op: "P", X: numOfInt(x), Y: numOfInt(y)}) },
+		func(x S, y D, z S) { w.emit(&NEvent{Op: "RT", X: numOfInt(x), Y: numOfInt(y), Z: numOfInt(z)}) })
 	// the instantiations run in parallel goroutines: a block of 300 samples converted 150 times while the other
 	// formats of the same source type are being converted next door
 	blk := make([]S, 300)
